@@ -119,7 +119,8 @@ pub fn exec(song: &mut Song, tokens: &Vec<Token>) -> bool {
             TokenType::LoopBegin => {
                 let mut it = LoopItem::new();
                 it.start_pos = pos + 1;
-                it.count = var_extract(&t.data[0], song).to_i() as usize;
+                let n = var_extract(&t.data[0], song).to_i();
+                it.count = if n < 0 { 0 } else { n as usize }; // a negative count (from an expression) is no count, not 2^64 passes
                 // println!("loop={}", it.count);
                 loop_stack.push(it);
             },
